@@ -478,6 +478,15 @@ class Interp:
             return ('callable', d)
         if isinstance(d, Func):
             return ('callable', d)
+        if e.attr in ('eps', 'tiny', 'resolution') and isinstance(e.value, ast.Call) and norm(e.value.func) in ('np.finfo', 'numpy.finfo') and \
+                len(e.value.args) == 1:
+            # machine constants are numbers: np.finfo(np.float32).eps = 2**-23, float64 2**-52
+            from fractions import Fraction as _F
+            t_ = norm(e.value.args[0])
+            bits = {'np.float32': 23, 'numpy.float32': 23, "'f4'": 23, "'float32'": 23, 'np.float64': 52, 'numpy.float64': 52, 'float': 52,
+                    "'f8'": 52, "'float64'": 52, 'np.float16': 10}.get(t_)
+            if bits is not None and e.attr == 'eps':
+                return Rat.const(_F(1, 2 ** bits))
         base = self.ev(e.value)
         if e.attr == 'shape':
             a = self.as_arr(base, getattr(e.value, 'id', None))
